@@ -53,9 +53,7 @@ def main(argv=None):
     if a.prop not in props.PROPS:
         print('unknown property', a.prop)
         return 2
-    if props.PROPS[a.prop].get('fault_units'):
-        return special.run_fault_property(a.prop, tier, seed, a.scale)
-    return special.run_scenario_property(a.prop, tier, seed, a.scale)
+    return special.run_property(a.prop, tier, seed, a.scale)
 
 
 if __name__ == '__main__':
